@@ -46,6 +46,9 @@ TERM_CHARSETS = [list("ab "), list("abc "), list("aéü "), list("abA "), list("
 def make_case(rng, i, tier):
     cs = rng.choice(TERM_CHARSETS)
     four = rng.random() < 0.12
+    nul = not four and rng.random() < 0.1
+    if nul:
+        cs = ["a", "\x00", "b"]
     if four:
         cs = list("abcd ")      # `start: TA TB TC TD` over four one-letter terminals with %ignore, the same object asked twice
     letters = [c for c in cs if c != " "]
@@ -84,6 +87,12 @@ def make_case(rng, i, tier):
         terms[0] = {"name": terms[0]["name"], "kind": "re", "ast": ("cls", sorted(rng.sample(multi, min(len(multi), rng.choice([2, 3])))), False)}
     if four:
         terms = [{"name": "T" + "ABCD"[k], "kind": "str", "lit": c, "ci": False, "ast": ("lit", c)} for k, c in enumerate("abcd")]
+    if nul:
+        # U+0000 in a string terminal and in a regex terminal (written with escapes in the Lark source): its UTF-8 encoding is the
+        # byte 0, a FALSY integer label on the byte level
+        terms = [{"name": "TA", "kind": "str", "lit": "a", "ci": False, "ast": ("lit", "a")},
+                 {"name": "TB", "kind": "re", "ast": ("lit", "\x00"), "src": "\\x00"},
+                 {"name": "TC", "kind": "str", "lit": "b\x00", "srclit": "b\\x00", "ci": False, "ast": _lit_ast("b\x00")}][: rng.choice([2, 3, 3])]
     ignore = None
     if " " in cs and (four or rng.random() < 0.5):
         ignore = {"name": "WS", "kind": "str", "lit": " ", "ci": False, "ast": ("lit", " ")}
@@ -108,7 +117,7 @@ def make_case(rng, i, tier):
         lines.append(f"{r}: " + " | ".join(" ".join(s + suf for s, suf in items) for items in alts))
     for t in terms + ([ignore] if ignore else []):
         if t["kind"] == "str":
-            lines.append(f'{t["name"]}: "{t["lit"]}"' + ("i" if t["ci"] else ""))
+            lines.append(f'{t["name"]}: "{t.get("srclit") or t["lit"]}"' + ("i" if t["ci"] else ""))
         else:
             lines.append(f'{t["name"]}: /{t.get("src") or regexgen.to_pattern(t["ast"])}/')
     if ignore:
